@@ -83,6 +83,9 @@ func NewStatsCommand$1$1 returns (err)
   dyncall 1 stats.statsCmd
   modifies *
   modifies ghost(cbLen, cbErr, cbNode, cbStop, cbRet, cbLineNo, cbLine, cbHeader, cbElems, cbNElems, scRd, scPos, privLo, evOf, accKey, accP, accN, accH, bufSink, bufSticky, sinkFailed, sinkPend, prLen, prSink, prArg, prArgs, csvLen, csvW, csvN, csvRow, tnodes, tdepth, tmax, tmapOf, jlen, tvLen, tv, tseg, tvSet, adLen, adName, adVal, adSep, adRoot, procLen, procTime, procSrc, lastOpen, cfgRd)
+  // the command is actually run (exactly this call) and its error is what the closure returns
+  ghost after dyncall 1 { let cmdErr := #ret }
+  ensures @runs-the-command [C17 C16] err == cmdErr
   ghost before dyncall 1 {
     assert @wiring [C16] #arg0 == o.GlobalConfig.LogFileName && #arg1 == o.GlobalConfig.DbFileName && #arg2.Now == o.GlobalConfig.Now && #arg2.ParserConfig == o.ParserConfig && #arg2.ReporterConfig == o.ReporterConfig
   }
